@@ -54,6 +54,16 @@ inductive WOpt (M K : Type)
   | noCreatedCallback
   | noIDCallback
 
+/-- `WithUpdatePaths(paths...)` = `WithUpdateMask(&fieldmaskpb.FieldMask{Paths: paths})` (no paths: a mask
+without paths, i.e. "change nothing" — not nil) -/
+def WOpt.updatePaths (m : K) : WOpt M K := .updateMask (some m)
+/-- `WithMoreUpdatePaths(paths...)` = `WithMoreUpdateMask(&fieldmaskpb.FieldMask{Paths: paths})` -/
+def WOpt.moreUpdatePaths (m : K) : WOpt M K := .moreUpdateMask m
+/-- `WithResetPaths(paths...)` = `WithResetMask(&fieldmaskpb.FieldMask{Paths: paths})` -/
+def WOpt.resetPaths (m : K) : WOpt M K := .resetMask (some m)
+/-- `WithMoreWritablePaths(paths...)` = `WithMoreWritableFields(&fieldmaskpb.FieldMask{Paths: paths})` -/
+def WOpt.moreWritablePaths (m : K) : WOpt M K := .moreWritable m
+
 /-- `opt.apply(req)` for one write option. -/
 def applyW (ops : MsgOps M K) (cat : K → K → K) (wr : WriteReq M K) : WOpt M K → WriteReq M K
   | .writeTime t => { wr with writeTime := some t }
@@ -95,6 +105,10 @@ inductive ROpt (M K : Type)
   | readMask (m : Option K)
   | incl (f : Option (String → M → Bool))
   | other
+
+/-- `WithReadPaths(m, paths...)` = `WithReadMask(mask)` for `mask, err := fieldmaskpb.New(m, paths...)`: the
+paths as given when all are fields of `m` (otherwise it panics before any option exists) -/
+def ROpt.readPaths (m : K) : ROpt M K := .readMask (some m)
 
 def applyR (rr : ReadReq M K) : ROpt M K → ReadReq M K
   | .readMask m => { rr with readMask := m }
